@@ -36,6 +36,33 @@ CHECKS = {
             "raises are recorded as findings against the dependency.",
             "DESIGN.md §8 C17"),
 }
+CHECKS["C19"] = (
+    "fault_enumeration",
+    "runtime monitoring under injected faults: child processes whose PATH resolves `rustfmt` to "
+    "fault stubs, failpoint delay between spawn and write; returned text compared by canonical "
+    "form with the formatter-off program; hang classified by idle CPU",
+    "Every cell of {13 formatter faults: absent, exit!=0 after/without reading, killed by "
+    "SIGKILL/SIGTERM before/after reading, partial output then killed/failed, garbage + failure, "
+    "reads 1 KiB then fails, empty output with exit 0 (with and without reading), slow but "
+    "correct} x {output below/above the 64 KiB pipe buffer} x {failpoint delay 0/50 ms} is run "
+    "in its own child; the real formatter is run over the whole corpus; every returned text must "
+    "be Ok and canonically equal to the formatter-off program; no panic; no blocked child.",
+    "canonical form = syn::parse_file -> prettyplease::unparse; the fault list is the "
+    "property's own plus close variants; exit 0 with truncated output is undetectable and out "
+    "of scope.",
+    "DESIGN.md §8 C19")
+CHECKS["C20"] = (
+    "exploration",
+    "runtime monitoring of cost: hook step counters + thread CPU time per call in child "
+    "processes under RLIMIT_CPU, on shader families of growing call depth / type nesting, "
+    "bounded by a polynomial in the naga IR size",
+    "Call chains and diamonds (value and void calls, width 2-4, depth up to 64), calls buried in "
+    "if/loop/continuing/switch, several entry points over one deep graph, fan-out to shared "
+    "helpers, nested struct towers (arity 2/3/8, with arrays), wide shaders: each generated in "
+    "a child under RLIMIT_CPU=10 s. Oracle: hook steps <= 8*N^2 (N = naga IR size), CPU <= 2 s "
+    "for <= 400 lines, fitted growth exponent of steps vs N <= 2.5 per family.",
+    "bound constants are ours (far above a linear walk); shapes are sampled, not all call graphs.",
+    "DESIGN.md §8 C20")
 
 NOT_YET = {
 }
